@@ -486,7 +486,122 @@ func factsC10(r *Repo) []Fact {
 	// tool calls: the ReuseHandlers(ctx, own RunInfo) statement is executed unconditionally, also
 	// for a tool that fires its own callbacks
 	out = append(out, c10ToolRunInfoUnconditional(cp))
+
+	// Lambda nodes: the runnable compileIfNeeded stores the node's nodeInfo in belongs to the
+	// graph node alone, not to every node made from the same *Lambda value
+	out = append(out, c10LambdaNodeOwnsRunnable(cp))
 	return out
+}
+
+// c10DerefCopies collects the identifiers defined in body as `x := *<sel>` where <sel> ends in
+// the given field name (a shallow copy of the runnable <sel> points to).
+func c10DerefCopies(body *ast.BlockStmt, field string) map[string]bool {
+	cps := map[string]bool{}
+	ast.Inspect(body, func(n ast.Node) bool {
+		as, ok := n.(*ast.AssignStmt)
+		if !ok || as.Tok != token.DEFINE || len(as.Lhs) != 1 || len(as.Rhs) != 1 {
+			return true
+		}
+		id, ok := as.Lhs[0].(*ast.Ident)
+		if !ok {
+			return true
+		}
+		if st, ok := as.Rhs[0].(*ast.StarExpr); ok {
+			if sel, ok := st.X.(*ast.SelectorExpr); ok && sel.Sel.Name == field {
+				cps[id.Name] = true
+			}
+		}
+		return true
+	})
+	return cps
+}
+
+// is e `&x` with x one of the local copies?
+func c10AddrOfCopy(e ast.Expr, cps map[string]bool) bool {
+	if u, ok := e.(*ast.UnaryExpr); ok && u.Op == token.AND {
+		if id, ok := u.X.(*ast.Ident); ok {
+			return cps[id.Name]
+		}
+	}
+	return false
+}
+
+func c10LambdaNodeOwnsRunnable(cp *Pkg) Fact {
+	const name, where = "lambdaNodeOwnsRunnable", "compose/component_to_graph_node.go toLambdaNode + compose/graph_node.go compileIfNeeded"
+	tl, _ := cp.Func("", "toLambdaNode")
+	ci, _ := cp.Func("graphNode", "compileIfNeeded")
+	if tl == nil || tl.Body == nil || ci == nil || ci.Body == nil {
+		return unknownFact(name, "Bool", "false", where, "toLambdaNode / (*graphNode).compileIfNeeded not found")
+	}
+	// (1) what toLambdaNode passes to toNode as the executor
+	addTime := ""
+	addExpr := ""
+	cps := c10DerefCopies(tl.Body, "executor")
+	ast.Inspect(tl.Body, func(n ast.Node) bool {
+		c, ok := n.(*ast.CallExpr)
+		if !ok {
+			return true
+		}
+		if f, ok := c.Fun.(*ast.Ident); !ok || f.Name != "toNode" || len(c.Args) < 2 {
+			return true
+		}
+		addExpr = exprString(c.Args[1])
+		switch a := c.Args[1].(type) {
+		case *ast.SelectorExpr:
+			if a.Sel.Name == "executor" {
+				addTime = "shared"
+			}
+		case *ast.UnaryExpr:
+			if c10AddrOfCopy(a, cps) {
+				addTime = "own"
+			}
+		}
+		return true
+	})
+	if addExpr == "" {
+		return unknownFact(name, "Bool", "false", where, "toLambdaNode: no call toNode(info, <executor>, …)")
+	}
+	if addTime == "own" {
+		return boolFact(name, true, "compose/component_to_graph_node.go toLambdaNode: toNode gets "+addExpr+", the address of a local copy of *node.executor — every graph node has a runnable of its own")
+	}
+	if addTime == "" {
+		return unknownFact(name, "Bool", "false", where, "toLambdaNode: executor argument "+addExpr+" not recognised")
+	}
+	// (2) the Lambda's own executor is shared by its nodes: does compileIfNeeded copy it before
+	// storing meta / nodeInfo in it?
+	writes := false // r.nodeInfo = … / r.meta = …
+	direct := false // r = gn.cr
+	copied := false // r = &cp with cp := *gn.cr
+	ccps := c10DerefCopies(ci.Body, "cr")
+	ast.Inspect(ci.Body, func(n ast.Node) bool {
+		as, ok := n.(*ast.AssignStmt)
+		if !ok || len(as.Lhs) != 1 || len(as.Rhs) != 1 {
+			return true
+		}
+		switch l := as.Lhs[0].(type) {
+		case *ast.SelectorExpr:
+			if x, ok := l.X.(*ast.Ident); ok && x.Name == "r" && (l.Sel.Name == "nodeInfo" || l.Sel.Name == "meta") {
+				writes = true
+			}
+		case *ast.Ident:
+			if l.Name == "r" {
+				if sel, ok := as.Rhs[0].(*ast.SelectorExpr); ok && sel.Sel.Name == "cr" {
+					direct = true
+				}
+				if c10AddrOfCopy(as.Rhs[0], ccps) {
+					copied = true
+				}
+			}
+		}
+		return true
+	})
+	switch {
+	case copied && !direct:
+		return boolFact(name, true, "compose/graph_node.go compileIfNeeded: r is the address of a local copy of *gn.cr before r.meta / r.nodeInfo are assigned")
+	case direct && writes:
+		return boolFact(name, false, "toLambdaNode passes "+addExpr+" (the Lambda's own runnable) to toNode and compileIfNeeded does r = gn.cr; r.meta = …; r.nodeInfo = … — all nodes made from one Lambda value write their node info into one runnable")
+	}
+	return unknownFact(name, "Bool", "false", where, "compileIfNeeded: neither `r = gn.cr` followed by r.nodeInfo = … nor a copy of *gn.cr recognised")
 }
 
 func c10WrapperOnErrorAlways(cp *Pkg) Fact {
